@@ -123,7 +123,11 @@ func init() {
 								return false
 							}
 							se, ok := ast.Unparen(c.Fun).(*ast.SelectorExpr)
-							return ok && se.Sel.Name == "IsZero" && readsPend(se.X)
+							if !ok || se.Sel.Name != "IsZero" {
+								return false
+							}
+							// the set itself or the local it was moved into
+							return readsPend(se.X) || holds[identObj(info, se.X)]
 						}
 						if succ == 0 {
 							for _, cj := range conjuncts(cond) {
